@@ -2,7 +2,7 @@
    Only theorem statements, each closed by [exact] of a lemma proved elsewhere. *)
 From LzVerif Require Import Base.Bytes Filter.Delta Filter.DeltaProofs.
 From LzVerif Require Import Filter.Bcj Filter.BcjStream Filter.BcjDefects Filter.BcjCodeProofs
-  Filter.BcjStreamProofs Filter.BcjIa64Proofs Filter.BcjAllProofs Filter.BcjDefectsProofs.
+  Filter.BcjStreamProofs Filter.BcjIa64Proofs Filter.BcjX86InvProofs Filter.BcjAllProofs Filter.BcjDefectsProofs.
 
 (* Delta: for EVERY distance value (the whole usize range, in or out of 1..256) and every byte
    string, the encoder does not panic, keeps the length, and the decoder returns the input. *)
@@ -96,10 +96,20 @@ Theorem C11_bcj_inverse_ia64 : forall start buf, start mod 16 = 0 -> bytes_ok bu
 Proof. exact bcj_inverse_ia64. Qed.
 Print Assumptions C11_bcj_inverse_ia64.
 
+(* x86: every start offset (alignment 1); the prev_mask automaton of the decoder, fed with the
+   converted bytes, takes the encoder's decisions *)
+Theorem C11_bcj_inverse_x86 : forall start buf, bytes_ok buf = true ->
+  exists st' out rest,
+    bcj_code X86 true (bcj_init X86 start) buf = Ok (st', out, rest) /\
+    bcj_code X86 false (bcj_init X86 start) (out ++ rest) = Ok (st', firstn (length out) buf, rest) /\
+    firstn (length out) buf ++ rest = buf /\ bytes_ok out = true.
+Proof. exact bcj_inverse_x86. Qed.
+Print Assumptions C11_bcj_inverse_x86.
+
 (* ---- the round trip through the I/O adapters, for every architecture whose `code` inverse is
    proved: one BCJWriter::write of the data, then BCJReader over ANY chunking of the filtered
    stream and ANY history of destination sizes (zeros included) that asks for enough bytes. ---- *)
-Theorem C11_bcj_roundtrip_word : forall a, In a [ARM; ARMT; ARM64; PPC; SPARC; IA64] ->
+Theorem C11_bcj_roundtrip_word : forall a, In a [X86; ARM; ARMT; ARM64; PPC; SPARC; IA64] ->
   forall start data, start mod bcj_align a = 0 -> bytes_ok data = true ->
   exists enc,
     bcj_enc_parts a start [data] = Ok enc /\ length enc = length data /\
